@@ -86,6 +86,8 @@ def run(chk):
             "C %s | nosuch 1" % (work / "warn.utb"), "T %s 0" % (work / "warn.utb"), "G unicode.dis,en-us-g1.ctb",
             "E 50000 " + "fatal%s".encode().hex(), "E 10000 " + "dbg".encode().hex(), "E 30000 " + "w%n".encode().hex(),
             "T nonexistent.ctb 0", "K en-us-g1.ctb,%s" % (work / "bad%d.utb")]
+    dump_texts = ["10% off", "a%sb %n %d", "100%", "%%", "plain text", "%x%x%x%x", "50%-60% %5$s"]
+    pool += ["U en-us-g1.ctb " + t.encode().hex() for t in dump_texts]
     for i in range(12 * mult):
         r = rng.fork(("b", i))
         body = [r.choice(pool) for _ in range(r.range(1, 6))]
@@ -115,6 +117,16 @@ def run(chk):
             else:
                 chk.violation("filter-mismatch", "threshold %d: capture is not the filtered ALL capture (%d vs %d msgs)" % (t, len(got), len(exp)),
                               dict(script=ln, all_script=lines[0], got=got[:20], expected=exp[:20]))
+        # caller-supplied text inside a message: the dump of the input that the translation logs at level ALL must carry the
+        # text verbatim (it is data, never a format)
+        for b in seq:
+            if b.startswith("U "):
+                text = bytes.fromhex(b.split()[-1]).decode("latin-1")
+                want = "Inbuf=" + "".join("0x%04X " % ord(c) for c in text) + "~ " + text
+                chk.tally("input_dumps_checked")
+                if not any(d[2] == want.encode("latin-1").hex() for d in allcap):
+                    chk.violation("dump-not-verbatim", "the input dump logged at level ALL is not the caller's text verbatim: expected %r, delivered %r"
+                                  % (want, [bytes.fromhex(d[2]).decode("latin-1") for d in allcap if d[2].startswith("Inbuf=".encode().hex())][:3]), dict(script=lines[0], expected=want))
         levels_seen = set(d[1] for d in allcap)
         for lv in levels_seen:
             chk.tally("level_%d_messages" % lv)
